@@ -299,6 +299,23 @@ func streamCodec(c *Ctx) {
 			c.Fail("http-status-after-failed-send", desc, got, "a failed unary Connect call has the HTTP status of its code (internal: 500), not 200")
 		}
 	}
+	// the text form is a value, not a window into the library: what one caller does to the bytes
+	// it was handed does not change what the next caller gets (round 10, C18-mm)
+	for n := uint32(0); n <= 20; n++ {
+		code := connect.Code(n)
+		first, err1 := code.MarshalText()
+		want := string(first)
+		for i := range first {
+			first[i] = 'X'
+		}
+		second, err2 := code.MarshalText()
+		var back connect.Code
+		err3 := back.UnmarshalText(second)
+		c.Count("code-text-fresh")
+		if err1 != nil || err2 != nil || string(second) != want || err3 != nil || back != code {
+			c.Fail("code-text-shared", fmt.Sprintf("Code(%d).MarshalText(), overwrite the result, MarshalText() again", n), fmt.Sprintf("second text %q (first was %q), parses back to %d (err %v)", second, want, back, err3), "the text form round-trips for every code, whatever earlier callers did with their copies")
+		}
+	}
 	// --- code -> HTTP (real handler) and HTTP -> code (real clients) ---
 	for n := 0; n <= 64; n++ {
 		codecOp(c, fmt.Sprintf("code.http %d", n))
